@@ -800,6 +800,65 @@ def private_copy(path, tag):
     return dst
 
 
+NEST_DEPTHS = (40, 60, 100, 200, 400, 1000)
+
+
+def nest_shapes(n):
+    return {"parens": b"SELECT " + b"(" * n + b"1" + b")" * n,
+            "subquery": b"SELECT " + b"(SELECT " * n + b"1" + b")" * n,
+            "case": b"SELECT " + b"CASE WHEN 1=1 THEN " * n + b"1" + b" ELSE 0 END" * n,
+            "func": b"SELECT " + b"abs(" * n + b"1" + b")" * n,
+            "not": b"SELECT " + b"NOT " * n + b"true",
+            "minus": b"SELECT " + b"- " * n + b"1"}
+
+
+def nesting_cases():
+    """moderately nested SQL in ONE well-framed Query / Parse with the query parser on (pool setting, or switched on by the
+    client with SET SERVER ROLE TO 'auto'): sqlparser's recursion limit must turn these into a parse error, not into a
+    stack overflow of the worker thread"""
+    out = []
+    for n in NEST_DEPTHS:
+        for sh, sql in nest_shapes(n).items():
+            for msg in ("Q", "P"):
+                for mode in ("pool", "role"):
+                    hb = Qm(sql) if msg == "Q" else Pm(b"", sql) + Bm() + Em() + Sm
+                    if mode == "role":
+                        hb = Qm(b"SET SERVER ROLE TO 'auto'") + hb
+                    out.append(dict(kind="post", variant="parser" if mode == "pool" else "plain", state="idle", cat="nesting",
+                                    label="nest_%s_%d_%s_%s" % (sh, n, msg, mode), hostile=hb, probe=False, id=-10))
+    return out
+
+
+def nesting_probes(run, wire):
+    """monitor-only (a process death is outside the model): the process survives, the sender is answered, the canary is served"""
+    cases = nesting_cases()
+    res = W.run_scenarios(wire, [scenario(c) for c in cases], timeout=90)
+    survived, answered, failures = 0, 0, []
+    for c, r in zip(cases, res):
+        if "harness_error" in r or "start_error" in r:
+            failures.append((c, ["the pooler process died or hung: %s" % str(r.get("harness_error", r.get("start_error")))[:300]]))
+            continue
+        survived += 1
+        probs = monitors(r, c)
+        o = observe(r, c)
+        if not o["zs"]:
+            probs = probs + ["the sender got no reply terminator (task: %s)" % o["task_raw"]]
+        else:
+            answered += 1
+        if o["task"] == "panic":
+            probs = probs + ["the sender's task panicked"]
+        if probs:
+            failures.append((c, probs))
+    for c, probs in failures[:6]:
+        run.violation("counterexample", "one %s message with SQL nested %s (query parser on): %s" % ("Query" if "_Q_" in c["label"] else "Parse", c["label"], probs[0]),
+                      {"input": case_replay(c), "monitors": probs, "note": "process liveness is monitor-only: no executable model exhibits a stack overflow"})
+    run.cov["nesting_probes"] = {"scenarios": len(cases), "process_survived": survived, "sender_answered": answered, "failures": len(failures),
+                                 "depths": list(NEST_DEPTHS), "shapes": sorted(nest_shapes(1)), "messages": ["Q", "P+B+E+S"],
+                                 "parser_on_by": ["pool setting", "SET SERVER ROLE TO 'auto'"],
+                                 "note": "monitor-only: process alive + canary served + sender answered; the model treats the parse outcome as an oracle (Ok and Err both continue)"}
+    return len(cases)
+
+
 def check(run):
     quick = run.tier == "quick"
     rng = run.rng
@@ -846,6 +905,8 @@ def check(run):
             run.log("release build: %d streams" % len(sub))
         else:
             run.broken.append("release harness build failed: " + blog2[-500:])
+    n_nest = nesting_probes(run, wire)
+    stats["evaluations"] += n_nest
     special_scenarios(run, wire, quick)
 
     # ---- decide
